@@ -438,6 +438,21 @@ func (d *driver) planRandom(count int, ext bool) {
 	if ext {
 		d.plan = "ext"
 	}
+	if ext {
+		// the caller's context is cancelled right after each of the first storage operations of an extended copy of the
+		// crafted shapes (stores that do not look at the context): the search for ancestors goes on, the copy of the
+		// roots must not be skipped silently - either an error, or everything is there
+		for _, cs := range craftedShapes() {
+			for _, start := range cs.Ext {
+				for step := 1; step <= 12; step++ {
+					sc := Scenario{Nodes: cs.Nodes, API: "extcopygraph", Root: start, Dst0: []int{}, C: 1 + step%3, Cancel: step, CMode: "after", Seed: d.rng.Int63()}
+					if r := d.run(&sc); len(r.Choices) < step {
+						break
+					}
+				}
+			}
+		}
+	}
 	for i := 0; i < count; i++ {
 		n := 3 + d.rng.Intn(5)
 		succ := vh.RandomSucc(n, d.rng, 25+d.rng.Intn(30))
